@@ -194,6 +194,8 @@ class Builder:
             else:
                 if scope.idvar and self.chance(60):
                     n["idvar"] = scope.idvar
+                    if self.chance(30):
+                        n["idmk"] = True
                 n["c"] = self.nodes(scope, depth + 1, comp_index, 0, where)
             return n
         if kind == "provide":
